@@ -110,7 +110,7 @@ Lemma js_extend_loop st segs : forall x s', psm_extend_loop dbg st ps x segs = S
 Proof using.
   induction segs as [|seg rest IH]; intros x s' H I; cbn [psm_extend_loop] in H.
   - inversion H; subst. exact I.
-  - destruct (list_eqb seg [46] || list_eqb seg [46; 46]); [eapply IH; eassumption|].
+  - destruct (psm_skips seg); [eapply IH; eassumption|].
     pose proof (js_len x I) as Lx.
     set (s1 := if (ps + 1 <? nlen x) || (nlen x =? ps) then x ++ [47] else x) in *.
     assert (JS s1 /\ seg_inv ps (ps + 1) s1 (nlen s1)) as [I1 A4].
